@@ -1,0 +1,128 @@
+//go:build verif
+
+// Contracts for package literals, read by /verif/bin/govc. Comments only.
+package literals
+
+// ---- C09: which expressions are rewritten ----
+
+//@ ghost replaced bool
+
+//@ hookset litdecision
+//@ hook before (*golang.org/x/tools/go/ast/astutil.Cursor).Replace(c, n)
+//@   replaced = true
+//@ end
+
+//@ func Obfuscate#post
+//@   property C09
+//@   hooks litdecision
+//@   requires !replaced
+//@   skip safety call-requires
+//@   ensures @constant-strings-in-the-window-are-rewritten: old(dyntypeis(cursor.Node(), ast.Expr) && info.Types[cursor.Node()].IsValue() && info.Types[cursor.Node()].Type == types.Typ[types.String] && info.Types[cursor.Node()].Value != nil && len(constant.StringVal(info.Types[cursor.Node()].Value)) >= 8 && len(constant.StringVal(info.Types[cursor.Node()].Value)) <= 2048) ==> replaced
+//@   ensures @visit-continues: r0
+//@ end
+
+//@ func Obfuscate#pre
+//@   property C09 C05
+//@   skip safety call-requires
+//@   ensures @prunes-only-nosplit-const-and-linker-vars: !r0 ==> dyntypeis(cursor.Node(), *ast.FuncDecl) || (dyntypeis(cursor.Node(), *ast.GenDecl) && cursor.Node().(*ast.GenDecl).Tok == token.CONST) || dyntypeis(cursor.Node(), *ast.ValueSpec)
+//@ end
+
+//@ func handleCompositeLiteral
+//@   property C09
+//@   skip safety call-requires
+//@   fact @gotypes-byte-is-uint8: forall t ref :: types.Identical(t, types.Universe.Lookup("byte").Type()) == types.Identical(t, types.Typ[types.Uint8])
+//@   ensures @byte-literals-in-the-window-are-rewritten: old(len(node.Elts) >= 8 && len(node.Elts) <= 2048 && ((dyntypeis(info.TypeOf(node.Type), *types.Array) && types.Identical(info.TypeOf(node.Type).(*types.Array).Elem(), types.Typ[types.Uint8])) || (dyntypeis(info.TypeOf(node.Type), *types.Slice) && types.Identical(info.TypeOf(node.Type).(*types.Slice).Elem(), types.Typ[types.Uint8]))) && (forall j int :: 0 <= j && j < len(node.Elts) ==> info.Types[node.Elts[j]].Value != nil && info.Types[node.Elts[j]].Value.Kind() == constant.Int)) ==> r0 != nil
+//@   loop 0
+//@     invariant forall j int :: 0 <= j && j < _i ==> info.Types[node.Elts[j]].Value != nil && info.Types[node.Elts[j]].Value.Kind() == constant.Int
+//@ end
+
+//@ func withPos
+//@   trusted only sets token.Pos fields of the nodes under node
+//@   assigns nothing
+//@   ensures r0 == node
+//@ end
+
+//@ func obfuscateByteSlice
+//@   property C09 C05
+//@   skip safety call-requires
+//@   ensures @produces-a-call: r0 != nil
+//@ end
+
+//@ func obfuscateByteArray
+//@   property C09 C05
+//@   skip safety call-requires
+//@   ensures @produces-a-call: r0 != nil
+//@ end
+
+//@ func obfuscateString
+//@   property C09 C05
+//@   skip safety call-requires
+//@   ensures @produces-a-call: r0 != nil
+//@ end
+
+// ---- C05: encode at obfuscation time / decode in the emitted code ----
+
+//@ func evalOperator
+//@   property C05
+//@   intmode bv
+//@   spec ops.smt2
+//@   may_panic when t != token.XOR && t != token.ADD && t != token.SUB
+//@   ensures @computes-the-named-operator: r0 == spec.Eval(t, x, y)
+//@ end
+
+//@ func operatorToReversedBinaryExpr
+//@   property C05
+//@   intmode bv
+//@   spec ops.smt2
+//@   may_panic when t != token.XOR && t != token.ADD && t != token.SUB
+//@   ensures @emits-the-inverse-operator-on-the-same-operands: r0 != nil && r0.Op == spec.Rev(t) && r0.X == x && r0.Y == y
+//@ end
+
+//@ lemma reversed-operator-inverts
+//@   property C05
+//@   intmode bv
+//@   spec ops.smt2
+//@   smt (declare-const t (_ BitVec 64))
+//@   smt (declare-const x (_ BitVec 8))
+//@   smt (declare-const y (_ BitVec 8))
+//@   goal (=> (|spec.IsOp| t) (= (|spec.Eval| (|spec.Rev| t) (|spec.Eval| t x y) y) x))
+//@ end
+
+//@ func getIndexType
+//@   property C05
+//@   spec indextype.smt2
+//@   requires 0 <= dataLen
+//@   assigns nothing
+//@   ensures @every-index-fits-the-type: forall v int64 :: 0 <= v && v < dataLen ==> v <= spec.MaxOf(r0)
+//@ end
+
+//@ func generateSwapCount
+//@   property C05
+//@   requires 1 <= dataLen && dataLen <= 1048576
+//@   assigns nothing
+//@   ensures @even-and-covers-the-data: r0 % 2 == 0 && dataLen <= r0 && r0 <= dataLen + dataLen/2 + 1
+//@ end
+
+//@ func genRandIntSlice
+//@   property C05
+//@   requires max > 0 && count >= 0
+//@   assigns nothing
+//@   ensures @count-and-range: len(r0) == count && (forall k int :: 0 <= k && k < count ==> 0 <= r0[k] && r0[k] < max)
+//@   loop 0
+//@     invariant len(indexes) == count
+//@     invariant forall k int :: 0 <= k && k < i ==> 0 <= indexes[k] && indexes[k] < max
+//@ end
+
+//@ func randOperator
+//@   property C05
+//@   spec indextype.smt2
+//@   assigns nothing
+//@   ensures @one-of-the-invertible-operators: spec.IsOpI(r0)
+//@ end
+
+//@ func (*obfRand).pickObfuscator
+//@   property C05 C09
+//@   fact @init-Obfuscators: len(Obfuscators) > 0 && len(CheapObfuscators) > 0
+//@   requires or != nil
+//@   may_panic when size < 8 || size > 2048
+//@ end
